@@ -96,5 +96,5 @@ func checkForeignKeysParsedByOwner(p *Prog, r *Report, clause string) {
 		}
 	}
 	r.OK("RAWKEY:"+clause+":app#scan", rule, "app/", fmt.Sprintf("%d functions of package app scanned, %d Iterator.Key() calls (violations, if any, are listed separately)", nFn, nIter))
-	r.Floor("iterator-key-calls-in-app", nIter, 1)
+	r.Count("iterator-key-calls-in-app", nIter) // no floor: the export may stop using raw iterators altogether (the fixture is the control)
 }
